@@ -154,8 +154,9 @@ impl Job {
         };
         (words, pos, groups)
     }
-    pub fn args(&self, order: u16) -> Vec<String> {
-        let (w, p, g) = self.parts();
+    pub fn args(&self, order: u16, verbosity: u8) -> Vec<String> {
+        let (w, p, mut g) = self.parts();
+        g.extend(verbosity_group(verbosity));
         arrange(&w, &p, &g, order)
     }
     fn describe(&self) -> String {
@@ -228,6 +229,16 @@ pub enum Ask {
     Produce { job: Job, out: String },
     /// DbcParser::parse (+ with_schema) + parse_records: header facts and every value
     DbcDump { table: Option<DbcTable> },
+    /// rebuild_archive with the options the flags stand for, into a scratch target: its summary
+    MpqRebuild { opts: RebuildOpts },
+    /// compare_archives(path, other, ..)
+    MpqCompare { other: String, detailed: bool, content_check: bool, metadata_only: bool, ignore_order: bool, filter: Option<String> },
+    /// get_info: format, file count, hash / block table sizes
+    MpqTables,
+    /// PatchChain of path + others (priorities 0, 100, 200 ..): read the names (None = chain.list())
+    MpqChainRead { others: Vec<String>, names: Option<Vec<String>> },
+    /// WdtReader::read + every tile with ADT data
+    WdtTiles { version: String },
 }
 
 fn es(e: impl std::fmt::Display) -> String {
@@ -456,6 +467,14 @@ pub fn eval_ask(ask: &Ask, path: &Path) -> Result<Value, String> {
     match ask {
         Ask::Produce { job, out } => produce(job, path, Path::new(out)),
         Ask::DbcDump { table } => dbc_dump(path, table.as_ref()),
+        Ask::MpqRebuild { opts } => mpq_rebuild_lib(path, opts),
+        Ask::MpqCompare { other, detailed, content_check, metadata_only, ignore_order, filter } => {
+            let r = wow_mpq::compare_archives(path, Path::new(other), *detailed, *content_check, *metadata_only, *ignore_order, filter.clone()).map_err(es)?;
+            Ok(json!({"identical": r.identical, "summary": {"identical_files": r.summary.identical_files, "different_files": r.summary.different_files, "source_only_count": r.summary.source_only_count, "target_only_count": r.summary.target_only_count}}))
+        }
+        Ask::MpqTables => mpq_tables_lib(path),
+        Ask::MpqChainRead { others, names } => chain_read(path, others, names.as_deref()),
+        Ask::WdtTiles { version } => wdt_tiles_lib(path, version),
     }
 }
 
@@ -477,6 +496,9 @@ pub struct ConvCase {
     pub prefill: u8,
     /// command-line arrangement (0 = canonical)
     pub order: u16,
+    /// 0 none, 1 -v, 2 -q, 3 -vv: what is written does not depend on how much is said
+    #[serde(default)]
+    pub verbosity: u8,
 }
 
 fn cmdline(args: &[String]) -> String {
@@ -547,7 +569,7 @@ pub fn run_conv(check: &Check, c: &ConvCase) -> Result<(), Fail> {
     if let Some(s) = &stale {
         sb.write(&out_rel, s);
     }
-    let args = job.args(c.order);
+    let args = job.args(c.order, c.verbosity);
     let run = sb.run(&args);
     let exit0 = run.ok();
     let lib_s = match &lib {
@@ -556,7 +578,7 @@ pub fn run_conv(check: &Check, c: &ConvCase) -> Result<(), Fail> {
         Verdict::Crashed(_) => "crash",
     };
     let fam = c.base.split(':').next().unwrap_or("");
-    let class = format!("p3:conv:{}:{fam}:{}:{}:stale{}:ord{}:lib-{lib_s}:exit{}", job.kind(), job.describe(), c.damage.kind(), c.prefill, (c.order != 0) as u8, if exit0 { "0" } else { "nz" });
+    let class = format!("p3:conv:{}:{fam}:{}:{}:stale{}:ord{}:v{}:lib-{lib_s}:exit{}", job.kind(), job.describe(), c.damage.kind(), c.prefill, (c.order != 0) as u8, c.verbosity % 4, if exit0 { "0" } else { "nz" });
     let judged = exit0 && expected.is_some();
     check.count(&class, judged);
     check.sample(&format!("p3:conv:{}:{}", job.kind(), c.damage.kind()), || json!({"part": "conv", "case": c, "library": lib_s, "exit0": exit0}));
@@ -701,7 +723,7 @@ pub fn conv_grid(thorough: bool) -> Vec<ConvCase> {
     let mut push = |v: &mut Vec<ConvCase>, job: Job, base: &str| {
         k += 1;
         // prefill and arrangement cycle independently of the other dimensions
-        v.push(ConvCase { job, base: base.to_string(), damage: Damage::None, prefill: (k % 4) as u8, order: if k % 3 == 0 { (k % 251) as u16 + 1 } else { 0 } });
+        v.push(ConvCase { job, base: base.to_string(), damage: Damage::None, prefill: (k % 4) as u8, order: if k % 3 == 0 { (k % 251) as u16 + 1 } else { 0 }, verbosity: if k % 5 < 2 { 0 } else { (k % 5 - 1) as u8 } });
     };
     let s = |x: &str| x.to_string();
     let keep = |i: usize, j: usize, bases: usize| thorough || (i + j) % bases.max(1) == 0 || j == i % 3;
@@ -797,11 +819,12 @@ pub fn conv_grid(thorough: bool) -> Vec<ConvCase> {
 pub fn conv_strategy() -> impl proptest::strategy::Strategy<Value = ConvCase> + use<> {
     use proptest::prelude::*;
     let grid = conv_grid(true);
-    (any::<u16>(), prop_oneof![2 => Just(Damage::None), 5 => crate::damage::damage_strategy()], 0u8..4, prop_oneof![1 => Just(0u16), 1 => any::<u16>()]).prop_map(move |(gi, damage, prefill, order)| {
+    (any::<u16>(), prop_oneof![2 => Just(Damage::None), 5 => crate::damage::damage_strategy()], 0u8..4, prop_oneof![1 => Just(0u16), 1 => any::<u16>()], prop_oneof![2 => Just(0u8), 1 => 1u8..4]).prop_map(move |(gi, damage, prefill, order, verbosity)| {
         let mut c = grid[pick_idx(gi, grid.len())].clone();
         c.damage = damage;
         c.prefill = prefill;
         c.order = order;
+        c.verbosity = verbosity;
         c
     })
 }
@@ -1550,14 +1573,1484 @@ pub fn dbc_strategy() -> impl proptest::strategy::Strategy<Value = DbcCase> + us
 }
 
 // ==========================================================================================
+// mpq: rebuild, compare, validate, info tables, patch-chain extraction, extract -f
+
+use vcheck::gens::mpq::{self as g, ArchiveSpec};
+
+#[derive(Clone, Debug, PartialEq, Eq, Serialize, Deserialize)]
+pub struct RebuildOpts {
+    pub upgrade_to: Option<u8>,
+    pub preserve_format: bool,
+    pub skip_encrypted: bool,
+    pub skip_signatures: bool,
+    pub verify: bool,
+    /// index into part1::COMPRESSIONS
+    pub compression: Option<u8>,
+    pub block_size: Option<u8>,
+    pub list_only: bool,
+}
+
+impl RebuildOpts {
+    fn groups(&self) -> Vec<Vec<String>> {
+        let s = |x: &str| x.to_string();
+        let mut g = vec![];
+        if self.preserve_format {
+            g.push(vec![s("--preserve-format")]);
+        }
+        if let Some(v) = self.upgrade_to {
+            g.push(vec![s("--upgrade-to"), format!("v{}", v.clamp(1, 4))]);
+        }
+        if self.skip_encrypted {
+            g.push(vec![s("--skip-encrypted")]);
+        }
+        if self.skip_signatures {
+            g.push(vec![s("--skip-signatures")]);
+        }
+        if self.verify {
+            g.push(vec![s("--verify")]);
+        }
+        if let Some(c) = self.compression {
+            g.push(vec![s("--compression"), s(crate::part1::COMPRESSIONS[c as usize % 4])]);
+        }
+        if let Some(b) = self.block_size {
+            g.push(vec![s("--block-size"), b.to_string()]);
+        }
+        if self.list_only {
+            g.push(vec![s("--list-only")]);
+        }
+        g
+    }
+    /// the library options the flags stand for (help text of `mpq rebuild`, field docs of RebuildOptions)
+    fn to_lib(&self) -> wow_mpq::RebuildOptions {
+        use wow_mpq::FormatVersion as F;
+        wow_mpq::RebuildOptions {
+            preserve_format: self.preserve_format,
+            target_format: self.upgrade_to.map(|v| [F::V1, F::V2, F::V3, F::V4][(v.clamp(1, 4) - 1) as usize]),
+            preserve_order: true,
+            skip_encrypted: self.skip_encrypted,
+            skip_signatures: self.skip_signatures,
+            verify: self.verify,
+            override_compression: self.compression.map(|c| [0u8, wow_mpq::compression::flags::ZLIB, wow_mpq::compression::flags::BZIP2, wow_mpq::compression::flags::LZMA][c as usize % 4]),
+            override_block_size: self.block_size.map(|b| b as u16),
+            list_only: self.list_only,
+        }
+    }
+}
+
+#[derive(Clone, Debug, Serialize, Deserialize)]
+pub struct RebuildCase {
+    pub spec: ArchiveSpec,
+    pub opts: RebuildOpts,
+    /// target path holds: 0 nothing, 1 another valid archive, 2 junk
+    pub prefill: u8,
+    pub order: u16,
+}
+
+const SPECIAL: [&str; 3] = ["(listfile)", "(attributes)", "(signature)"];
+
+fn is_special(n: &str) -> bool {
+    SPECIAL.iter().any(|s| s.eq_ignore_ascii_case(n))
+}
+
+fn fold(n: &str) -> String {
+    n.replace('/', "\\").to_ascii_lowercase()
+}
+
+fn lib_tag(v: &Verdict) -> &'static str {
+    match v {
+        Verdict::Ok(_) => "ok",
+        Verdict::Rejects(_) => "err",
+        Verdict::Crashed(_) => "crash",
+    }
+}
+
+fn spec_class(spec: &ArchiveSpec) -> String {
+    format!("V{}:shift{}:n{}:enc{}", spec.version, spec.shift, spec.files.len().min(4), spec.files.iter().any(|f| f.enc != g::Enc::None) as u8)
+}
+
+fn build_into(sb: &Sandbox, spec: &ArchiveSpec, rel: &str) -> bool {
+    fixtures::build_mpq(spec, &sb.path(rel)).is_ok()
+}
+
+pub fn run_rebuild(check: &Check, c: &RebuildCase) -> Result<(), Fail> {
+    let sb = Sandbox::new();
+    if !build_into(&sb, &c.spec, "in/a.mpq") {
+        check.bump("p3:builder-refused", 1);
+        check.count("p3:rebuild:builder-refused", false);
+        return Ok(());
+    }
+    let s = |x: &str| x.to_string();
+    match c.prefill {
+        1 => {
+            if let Ok(b) = fixtures::base("mpq:v1") {
+                sb.write("out/rb.mpq", &b);
+            }
+        }
+        2 => sb.write("out/rb.mpq", &stale_bytes(None, 2)),
+        _ => {}
+    }
+    let args = arrange(&[s("mpq"), s("rebuild")], &[s("in/a.mpq"), s("out/rb.mpq")], &c.opts.groups(), c.order);
+    let lib = ask(Ask::MpqRebuild { opts: c.opts.clone() }, &sb.path("in/a.mpq"));
+    let run = sb.run(&args);
+    let exit0 = run.ok();
+    let o = &c.opts;
+    let class = format!(
+        "p3:rebuild:{}:up{}:pf{}:se{}:ss{}:vf{}:c{}:b{}:lo{}:stale{}:ord{}:lib-{}:exit{}",
+        spec_class(&c.spec),
+        o.upgrade_to.map(|v| v.to_string()).unwrap_or("-".into()),
+        o.preserve_format as u8,
+        o.skip_encrypted as u8,
+        o.skip_signatures as u8,
+        o.verify as u8,
+        o.compression.map(|v| v.to_string()).unwrap_or("-".into()),
+        o.block_size.map(|v| v.to_string()).unwrap_or("-".into()),
+        o.list_only as u8,
+        c.prefill,
+        (c.order != 0) as u8,
+        lib_tag(&lib),
+        if exit0 { "0" } else { "nz" }
+    );
+    check.count(&class, exit0 && matches!(lib, Verdict::Ok(_)) && !o.list_only);
+    check.sample(&format!("p3:rebuild:V{}", c.spec.version), || json!({"part": "rebuild", "case": c, "exit0": exit0}));
+    let ctx = || format!("`{}` on {} → {}", cmdline(&args), c.spec.summary(), show(&run));
+    let mut fails = vec![];
+    if !exit0 {
+        if matches!(lib, Verdict::Ok(_)) {
+            check.bump("p3:cli-refuses-what-library-does:mpq:rebuild", 1);
+        }
+        return Ok(());
+    }
+    let info = match &lib {
+        Verdict::Ok(i) => i.clone(),
+        Verdict::Rejects(e) => {
+            fails.push(Fail::new("exit0-on-rejected-input:mpq:rebuild", format!("{} — rebuild_archive with the same options returns Err({})", ctx(), vcheck::engine::truncate(e, 200))));
+            return crate::settle(check, fails);
+        }
+        Verdict::Crashed(h) => {
+            fails.push(Fail::new("exit0-on-input-crashing-library:mpq:rebuild", format!("{} — rebuild_archive died: {h}", ctx())));
+            return crate::settle(check, fails);
+        }
+    };
+    // the printed summary states the library's numbers
+    for (label, key) in [("Source files:", "source_files"), ("Extracted files:", "extracted_files")] {
+        if let Some(n) = labelled_u64(&run.stdout, label) {
+            if Some(n) != info[key].as_u64() {
+                fails.push(Fail::new("reported-count-differs-from-library:mpq:rebuild", format!("{} — '{label} {n}', rebuild_archive's summary has {key} = {}", ctx(), info[key])));
+            }
+        }
+    }
+    if o.list_only {
+        check.bump("p3:judged:mpq:rebuild:list-only", 1);
+        return crate::settle(check, fails);
+    }
+    if !sb.exists("out/rb.mpq") {
+        fails.push(Fail::new("exit0-without-output:mpq:rebuild", format!("{} — out/rb.mpq was not written", ctx())));
+        return crate::settle(check, fails);
+    }
+    let src = match oracle::ask(&Entry::MpqReadAll, &sb.path("in/a.mpq")) {
+        Verdict::Ok(v) => v,
+        _ => {
+            check.bump("p3:source-unreadable", 1);
+            return crate::settle(check, fails);
+        }
+    };
+    let (dst, dst_info) = match (oracle::ask(&Entry::MpqReadAll, &sb.path("out/rb.mpq")), oracle::ask(&Entry::MpqTree, &sb.path("out/rb.mpq"))) {
+        (Verdict::Ok(a), Verdict::Ok(b)) => (a, b),
+        (a, b) => {
+            let why = if matches!(a, Verdict::Ok(_)) { b.describe() } else { a.describe() };
+            fails.push(Fail::new("exit0-with-unparseable-output:mpq:rebuild", format!("{} — the library cannot read out/rb.mpq: {why}", ctx())));
+            return crate::settle(check, fails);
+        }
+    };
+    check.bump("p3:judged:mpq:rebuild", 1);
+    let enc: BTreeSet<String> = c.spec.files.iter().filter(|f| f.enc != g::Enc::None).map(|f| fold(&f.name)).collect();
+    let dstm: BTreeMap<String, &Value> = dst["files"].as_object().map(|m| m.iter().map(|(k, v)| (fold(k), v)).collect()).unwrap_or_default();
+    let srcm: BTreeMap<String, &Value> = src["files"].as_object().map(|m| m.iter().map(|(k, v)| (fold(k), v)).collect()).unwrap_or_default();
+    let mut compared = 0;
+    for (name, d) in &srcm {
+        if is_special(name) || d.get("err").is_some() || (o.skip_encrypted && enc.contains(name)) {
+            continue;
+        }
+        match dstm.get(name) {
+            None => {
+                fails.push(Fail::new("rebuild-loses-file:mpq:rebuild", format!("{} — {name:?} ({} bytes in the source) is not among the files the library lists in out/rb.mpq", ctx(), d["len"])));
+                break;
+            }
+            Some(t) => {
+                if t.get("err").is_some() || t["h"] != d["h"] || t["len"] != d["len"] {
+                    fails.push(Fail::new("rebuild-changes-content:mpq:rebuild", format!("{} — {name:?}: source {d}, target {t}", ctx())));
+                    break;
+                }
+                compared += 1;
+            }
+        }
+    }
+    if compared > 0 {
+        check.bump("p3:rebuild:files-compared", compared);
+    }
+    for name in dstm.keys() {
+        if !is_special(name) && !srcm.contains_key(name) {
+            fails.push(Fail::new("rebuild-invents-file:mpq:rebuild", format!("{} — {name:?} is listed in out/rb.mpq but not in the source", ctx())));
+            break;
+        }
+    }
+    // documented effects of the options on the container
+    let src_info = oracle::ask(&Entry::MpqTree, &sb.path("in/a.mpq"));
+    if let Some(v) = o.upgrade_to {
+        let want = format!("V{}", v.clamp(1, 4));
+        if dst_info["format"].as_str() != Some(&want) {
+            fails.push(Fail::new("rebuild-ignores-upgrade-to:mpq:rebuild", format!("{} — out/rb.mpq has format {}, --upgrade-to asked for {want}", ctx(), dst_info["format"])));
+        }
+    } else if o.preserve_format {
+        if let Verdict::Ok(si) = &src_info {
+            if dst_info["format"] != si["format"] {
+                fails.push(Fail::new("rebuild-ignores-preserve-format:mpq:rebuild", format!("{} — source format {}, target format {}", ctx(), si["format"], dst_info["format"])));
+            }
+        }
+    }
+    if let Some(b) = o.block_size {
+        if dst_info["sector_size"].as_u64() != Some(512u64 << b) {
+            fails.push(Fail::new("rebuild-ignores-block-size:mpq:rebuild", format!("{} — out/rb.mpq has sector size {}, --block-size {b} means {}", ctx(), dst_info["sector_size"], 512u64 << b)));
+        }
+    }
+    crate::settle(check, fails)
+}
+
+fn mpq_rebuild_lib(path: &Path, opts: &RebuildOpts) -> Result<Value, String> {
+    let d = vcheck::engine::scratch("c20p3rb");
+    let target = d.path().join("t.mpq");
+    let s = wow_mpq::rebuild_archive(path, target.as_path(), opts.to_lib(), None).map_err(es)?;
+    Ok(json!({"source_files": s.source_files, "extracted_files": s.extracted_files, "skipped_files": s.skipped_files, "target_format": format!("{:?}", s.target_format), "verified": s.verified}))
+}
+
+// ------------------------------------------------------------------------------------------
+
+#[derive(Clone, Debug, Serialize, Deserialize)]
+pub struct CompareCase {
+    pub spec: ArchiveSpec,
+    /// how the second archive differs: 0 same spec; 1 one file, same length, other bytes; 2 one
+    /// file of another length; 3 one file more; 4 other format version; 5 one file fewer
+    pub variant: u8,
+    pub which: u16,
+    pub detailed: bool,
+    pub content_check: bool,
+    pub metadata_only: bool,
+    pub ignore_order: bool,
+    /// 0 table, 1 summary, 2 json
+    pub output: u8,
+    pub filter: Option<String>,
+    pub order: u16,
+}
+
+fn vary(spec: &ArchiveSpec, variant: u8, which: u16) -> ArchiveSpec {
+    let mut b = spec.clone();
+    let n = b.files.len();
+    let i = pick_idx(which, n);
+    match variant {
+        1 if n > 0 => b.files[i].seed = b.files[i].seed.wrapping_add(0x5151),
+        2 if n > 0 => b.files[i].len.delta = b.files[i].len.delta.wrapping_add(5),
+        3 => {
+            let mut f = if n > 0 { b.files[i].clone() } else { return b };
+            f.name = "added_by_variant.dat".into();
+            b.files.push(f);
+        }
+        4 => b.version = if b.version >= 4 { 1 } else { b.version + 1 },
+        5 if n > 1 => {
+            b.files.remove(i);
+        }
+        _ => {}
+    }
+    b
+}
+
+pub fn run_compare(check: &Check, c: &CompareCase) -> Result<(), Fail> {
+    let sb = Sandbox::new();
+    let b_spec = vary(&c.spec, c.variant, c.which);
+    if !build_into(&sb, &c.spec, "in/a.mpq") || !build_into(&sb, &b_spec, "in/b.mpq") {
+        check.bump("p3:builder-refused", 1);
+        check.count("p3:compare:builder-refused", false);
+        return Ok(());
+    }
+    let s = |x: &str| x.to_string();
+    let mut groups: Vec<Vec<String>> = vec![];
+    for (on, flag) in [(c.detailed, "--detailed"), (c.content_check, "--content-check"), (c.metadata_only, "--metadata-only"), (c.ignore_order, "--ignore-order")] {
+        if on {
+            groups.push(vec![s(flag)]);
+        }
+    }
+    let fmt = ["table", "summary", "json"][c.output as usize % 3];
+    if c.output % 3 != 0 || c.order % 2 == 1 {
+        groups.push(vec![s("--output"), s(fmt)]);
+    }
+    if let Some(f) = &c.filter {
+        groups.push(vec![s("--filter"), f.clone()]);
+    }
+    let args = arrange(&[s("mpq"), s("compare")], &[s("in/a.mpq"), s("in/b.mpq")], &groups, c.order);
+    let lib = ask(
+        Ask::MpqCompare { other: sb.path("in/b.mpq").to_string_lossy().to_string(), detailed: c.detailed, content_check: c.content_check, metadata_only: c.metadata_only, ignore_order: c.ignore_order, filter: c.filter.clone() },
+        &sb.path("in/a.mpq"),
+    );
+    let run = sb.run(&args);
+    let exit0 = run.ok();
+    let class = format!(
+        "p3:compare:{}:var{}:d{}:cc{}:mo{}:io{}:{fmt}:f{}:ord{}:lib-{}:exit{}",
+        spec_class(&c.spec),
+        c.variant,
+        c.detailed as u8,
+        c.content_check as u8,
+        c.metadata_only as u8,
+        c.ignore_order as u8,
+        c.filter.is_some() as u8,
+        (c.order != 0) as u8,
+        lib_tag(&lib),
+        if exit0 { "0" } else { "nz" }
+    );
+    check.count(&class, exit0 && matches!(lib, Verdict::Ok(_)));
+    check.sample(&format!("p3:compare:var{}:{fmt}", c.variant), || json!({"part": "compare", "case": c, "exit0": exit0}));
+    let ctx = || format!("`{}` ({} vs variant {}) → {}", cmdline(&args), c.spec.summary(), c.variant, show(&run));
+    let mut fails = vec![];
+    if !exit0 {
+        if matches!(lib, Verdict::Ok(_)) {
+            check.bump("p3:cli-refuses-what-library-does:mpq:compare", 1);
+        }
+        return Ok(());
+    }
+    let info = match &lib {
+        Verdict::Ok(i) => i.clone(),
+        Verdict::Rejects(e) => {
+            fails.push(Fail::new("exit0-on-rejected-input:mpq:compare", format!("{} — compare_archives with the same options returns Err({})", ctx(), vcheck::engine::truncate(e, 200))));
+            return crate::settle(check, fails);
+        }
+        Verdict::Crashed(h) => {
+            fails.push(Fail::new("exit0-on-input-crashing-library:mpq:compare", format!("{} — compare_archives died: {h}", ctx())));
+            return crate::settle(check, fails);
+        }
+    };
+    let want = info["identical"].as_bool().unwrap_or(false);
+    check.bump(if want { "p3:judged:mpq:compare:identical" } else { "p3:judged:mpq:compare:differing" }, 1);
+    // ground truth the generator knows (observation only: the comparator itself is C07's business)
+    let surely_differs = matches!(c.variant, 2 | 3 | 4 | 5) && b_spec != c.spec && c.filter.is_none();
+    if surely_differs && want {
+        check.bump("observation:compare_archives-calls-different-archives-identical", 1);
+    }
+    let out = &run.stdout;
+    let said: Option<bool> = match fmt {
+        "json" => out.lines().find_map(|l| l.trim().strip_prefix("identical:").map(|r| r.trim().trim_end_matches(',') == "true")),
+        "summary" => {
+            if out.contains("✓ Archives are identical") {
+                Some(true)
+            } else if out.contains("✗ Archives differ") {
+                Some(false)
+            } else {
+                None
+            }
+        }
+        _ => {
+            if out.contains("✓ Archives are identical") {
+                Some(true)
+            } else if out.contains("Summary:") {
+                Some(false)
+            } else {
+                None
+            }
+        }
+    };
+    match said {
+        None => fails.push(Fail::new("compare-output-incomplete:mpq:compare", format!("{} — the output states no verdict; compare_archives says identical = {want}", ctx()))),
+        Some(v) if v != want => fails.push(Fail::new("compare-verdict-differs-from-library:mpq:compare", format!("{} — the output says identical = {v}, compare_archives with the same options says {want}", ctx()))),
+        Some(false) => {
+            let sum = &info["summary"];
+            if fmt == "table" {
+                for (suffix, key) in [("files identical", "identical_files"), ("files different", "different_files"), ("files only in source", "source_only_count"), ("files only in target", "target_only_count")] {
+                    let got = out.lines().rev().find_map(|l| l.trim().strip_suffix(suffix).and_then(|n| n.trim().parse::<u64>().ok()));
+                    if got != sum[key].as_u64() {
+                        fails.push(Fail::new("compare-counts-differ-from-library:mpq:compare", format!("{} — '{:?} {suffix}', compare_archives' summary has {key} = {}", ctx(), got, sum[key])));
+                        break;
+                    }
+                }
+            } else if fmt == "summary" {
+                let total = sum["different_files"].as_u64().unwrap_or(0) + sum["source_only_count"].as_u64().unwrap_or(0) + sum["target_only_count"].as_u64().unwrap_or(0);
+                let got = out.lines().rev().find_map(|l| l.trim().strip_prefix("Summary:").and_then(|r| r.trim().strip_suffix("total differences")).and_then(|n| n.trim().parse::<u64>().ok()));
+                if got != Some(total) {
+                    fails.push(Fail::new("compare-counts-differ-from-library:mpq:compare", format!("{} — 'Summary: {:?} total differences', compare_archives' summary adds up to {total}", ctx(), got)));
+                }
+            }
+        }
+        Some(true) => {}
+    }
+    crate::settle(check, fails)
+}
+
+// ------------------------------------------------------------------------------------------
+
+#[derive(Clone, Debug, Serialize, Deserialize)]
+pub struct ValidateCase {
+    pub spec: ArchiveSpec,
+    /// (file selector, position selector inside its stored bytes): invert 8 stored bytes
+    pub corrupt: Option<(u16, u16)>,
+    pub check_checksums: bool,
+    pub threads: Option<u8>,
+    /// 0 none, 1 -v, 2 -q, 3 -vv
+    pub verbosity: u8,
+    pub order: u16,
+}
+
+fn verbosity_group(v: u8) -> Option<Vec<String>> {
+    match v % 4 {
+        1 => Some(vec!["-v".to_string()]),
+        2 => Some(vec!["-q".to_string()]),
+        3 => Some(vec!["-vv".to_string()]),
+        _ => None,
+    }
+}
+
+/// invert 8 bytes inside the stored (compressed) bytes of one file; returns the file's name
+fn corrupt_one(path: &Path, spec: &ArchiveSpec, sel: (u16, u16)) -> Option<String> {
+    let names: Vec<String> = spec.files.iter().map(|f| f.name.clone()).collect();
+    let p = path.to_path_buf();
+    let infos = vcheck::engine::guard("find_file", move || {
+        let mut v = vec![];
+        if let Ok(mut a) = wow_mpq::Archive::open(&p) {
+            for n in &names {
+                if let Ok(Some(fi)) = a.find_file(n) {
+                    if fi.compressed_size >= 16 {
+                        v.push((n.clone(), fi.file_pos, fi.compressed_size));
+                    }
+                }
+            }
+        }
+        v
+    })
+    .ok()?;
+    if infos.is_empty() {
+        return None;
+    }
+    let (name, pos, csize) = infos[pick_idx(sel.0, infos.len())].clone();
+    let mut bytes = std::fs::read(path).ok()?;
+    let at = pos as usize + pick_idx(sel.1, csize as usize - 8);
+    if at + 8 > bytes.len() {
+        return None;
+    }
+    for b in &mut bytes[at..at + 8] {
+        *b = !*b;
+    }
+    std::fs::write(path, bytes).ok()?;
+    Some(name)
+}
+
+pub fn run_validate(check: &Check, c: &ValidateCase) -> Result<(), Fail> {
+    let sb = Sandbox::new();
+    if !build_into(&sb, &c.spec, "in/a.mpq") {
+        check.bump("p3:builder-refused", 1);
+        check.count("p3:validate:builder-refused", false);
+        return Ok(());
+    }
+    let hit = c.corrupt.and_then(|sel| corrupt_one(&sb.path("in/a.mpq"), &c.spec, sel));
+    let s = |x: &str| x.to_string();
+    let mut groups: Vec<Vec<String>> = vec![];
+    if c.check_checksums {
+        groups.push(vec![s("--check-checksums")]);
+    }
+    if let Some(t) = c.threads {
+        groups.push(vec![s("--threads"), t.max(1).to_string()]);
+    }
+    groups.extend(verbosity_group(c.verbosity));
+    let args = arrange(&[s("mpq"), s("validate")], &[s("in/a.mpq")], &groups, c.order);
+    let lib = oracle::ask(&Entry::MpqValidate, &sb.path("in/a.mpq"));
+    let run = sb.run(&args);
+    let exit0 = run.ok();
+    let errs = match &lib {
+        Verdict::Ok(i) => i["read_errors"].as_u64().unwrap_or(0),
+        _ => 0,
+    };
+    let state = match (&lib, hit.is_some(), errs) {
+        (Verdict::Ok(_), false, 0) => "intact",
+        (Verdict::Ok(_), true, 0) => "damage-not-noticed-by-library",
+        (Verdict::Ok(_), _, _) => "file-unreadable",
+        _ => "archive-unreadable",
+    };
+    let class = format!("p3:validate:{}:{state}:cc{}:thr{}:v{}:ord{}:exit{}", spec_class(&c.spec), c.check_checksums as u8, c.threads.map(|t| t.to_string()).unwrap_or("-".into()), c.verbosity % 4, (c.order != 0) as u8, if exit0 { "0" } else { "nz" });
+    check.count(&class, state != "damage-not-noticed-by-library");
+    check.bump(&format!("p3:validate:{state}"), 1);
+    check.sample(&format!("p3:validate:{state}"), || json!({"part": "validate", "case": c, "exit0": exit0}));
+    let ctx = || format!("`{}` on {} ({state}{}) → {}", cmdline(&args), c.spec.summary(), hit.as_ref().map(|n| format!(", 8 stored bytes of {n:?} inverted")).unwrap_or_default(), show(&run));
+    let mut fails = vec![];
+    match (&lib, exit0) {
+        (Verdict::Ok(i), true) if errs > 0 => fails.push(Fail::new("exit0-on-failed-validation:mpq:validate", format!("{} — the library fails to read {errs} of the listed files: {}", ctx(), vcheck::engine::truncate(&i["files"].to_string(), 300)))),
+        (Verdict::Rejects(e), true) => fails.push(Fail::new("exit0-on-rejected-input:mpq:validate", format!("{} — the library cannot open the archive: {}", ctx(), vcheck::engine::truncate(e, 200)))),
+        (Verdict::Crashed(h), true) => fails.push(Fail::new("exit0-on-input-crashing-library:mpq:validate", format!("{} — the library died: {h}", ctx()))),
+        (Verdict::Ok(_), false) if state == "intact" => fails.push(Fail::new("validate-fails-on-intact-archive:mpq:validate", format!("{} — the archive was just built and the library reads every listed file", ctx()))),
+        _ => {}
+    }
+    crate::settle(check, fails)
+}
+
+// ------------------------------------------------------------------------------------------
+
+#[derive(Clone, Debug, Serialize, Deserialize)]
+pub struct TablesCase {
+    pub spec: ArchiveSpec,
+    pub hash: bool,
+    pub block: bool,
+    pub verbosity: u8,
+    pub order: u16,
+}
+
+/// data rows (first cell a number) of the table printed under the heading that contains `title`
+fn table_rows(stdout: &str, title: &str, stop: &[&str]) -> Option<Option<u64>> {
+    let mut inside = false;
+    let mut n = 0u64;
+    let mut absent = false;
+    for l in stdout.lines() {
+        if !inside {
+            if l.contains(title) {
+                inside = true;
+            }
+            continue;
+        }
+        if stop.iter().any(|s| l.contains(s)) {
+            break;
+        }
+        if l.contains("No hash table found") || l.contains("No block table found") {
+            absent = true;
+        }
+        if let Some(cell) = l.strip_prefix("| ").and_then(|r| r.split('|').next()) {
+            if cell.trim().parse::<u64>().is_ok() {
+                n += 1;
+            }
+        }
+    }
+    if !inside {
+        None
+    } else if absent {
+        Some(None)
+    } else {
+        Some(Some(n))
+    }
+}
+
+pub fn run_tables(check: &Check, c: &TablesCase) -> Result<(), Fail> {
+    let sb = Sandbox::new();
+    if !build_into(&sb, &c.spec, "in/a.mpq") {
+        check.bump("p3:builder-refused", 1);
+        check.count("p3:tables:builder-refused", false);
+        return Ok(());
+    }
+    let s = |x: &str| x.to_string();
+    let mut groups: Vec<Vec<String>> = vec![];
+    if c.hash {
+        groups.push(vec![s("--show-hash-table")]);
+    }
+    if c.block {
+        groups.push(vec![s("--show-block-table")]);
+    }
+    groups.extend(verbosity_group(c.verbosity));
+    let args = arrange(&[s("mpq"), s("info")], &[s("in/a.mpq")], &groups, c.order);
+    let lib = ask(Ask::MpqTables, &sb.path("in/a.mpq"));
+    let run = sb.run(&args);
+    let exit0 = run.ok();
+    let quiet = c.verbosity % 4 == 2;
+    let class = format!("p3:tables:{}:h{}:b{}:v{}:ord{}:lib-{}:exit{}", spec_class(&c.spec), c.hash as u8, c.block as u8, c.verbosity % 4, (c.order != 0) as u8, lib_tag(&lib), if exit0 { "0" } else { "nz" });
+    check.count(&class, exit0 && matches!(lib, Verdict::Ok(_)) && (c.hash || c.block));
+    check.sample(&format!("p3:tables:h{}:b{}", c.hash as u8, c.block as u8), || json!({"part": "tables", "case": c, "exit0": exit0}));
+    let ctx = || format!("`{}` on {} → {}", cmdline(&args), c.spec.summary(), show(&run));
+    let mut fails = vec![];
+    let info = match (&lib, exit0) {
+        (Verdict::Ok(i), true) => i.clone(),
+        (Verdict::Rejects(e), true) => {
+            fails.push(Fail::new("exit0-on-rejected-input:mpq:info", format!("{} — the library: {}", ctx(), vcheck::engine::truncate(e, 200))));
+            return crate::settle(check, fails);
+        }
+        (Verdict::Ok(_), false) => {
+            fails.push(Fail::new("info-fails-on-readable-archive:tables", ctx()));
+            return crate::settle(check, fails);
+        }
+        _ => return Ok(()),
+    };
+    check.bump("p3:judged:mpq:info", 1);
+    let out = &run.stdout;
+    if !quiet || !out.trim().is_empty() {
+        let (fmt, n) = crate::part1::parse_info(out);
+        if let Some(f) = fmt {
+            if Some(f.as_str()) != info["format"].as_str() {
+                fails.push(Fail::new("info-format-version-differs-from-library:tables", format!("{} — says {f}, get_info says {}", ctx(), info["format"])));
+            }
+        }
+        if let Some(n) = n {
+            if Some(n) != info["file_count"].as_u64() {
+                fails.push(Fail::new("info-file-count-differs-from-library:tables", format!("{} — says {n}, get_info().file_count is {}", ctx(), info["file_count"])));
+            }
+        }
+        for (on, title, key, stop) in [(c.hash, "Hash Table", "hash_table_size", &["Block Table"][..]), (c.block, "Block Table", "block_table_size", &["HET Table", "BET Table"][..])] {
+            if !on {
+                continue;
+            }
+            match table_rows(out, title, stop) {
+                None => fails.push(Fail::new("info-table-missing:mpq:info", format!("{} — no '{title}' section although the option asks for it", ctx()))),
+                Some(None) => {
+                    if !info[key].is_null() && info[&format!("{key}_loaded")].as_bool() == Some(true) {
+                        fails.push(Fail::new("info-table-missing:mpq:info", format!("{} — '{title}' reported as absent, get_info has {} entries", ctx(), info[key])));
+                    }
+                }
+                Some(Some(n)) => {
+                    check.bump("p3:tables:rows-compared", 1);
+                    if Some(n) != info[key].as_u64() {
+                        fails.push(Fail::new("info-table-rows-differ-from-library:mpq:info", format!("{} — the {title} section has {n} rows, get_info().{key} is {}", ctx(), info[key])));
+                    }
+                }
+            }
+        }
+    }
+    crate::settle(check, fails)
+}
+
+fn mpq_tables_lib(path: &Path) -> Result<Value, String> {
+    let mut a = wow_mpq::Archive::open(path).map_err(es)?;
+    let i = a.get_info().map_err(es)?;
+    Ok(json!({
+        "format": format!("{:?}", i.format_version),
+        "file_count": i.file_count,
+        "hash_table_size": i.hash_table_info.size,
+        "block_table_size": i.block_table_info.size,
+        "hash_table_size_loaded": a.hash_table().is_some(),
+        "block_table_size_loaded": a.block_table().is_some(),
+    }))
+}
+
+// ------------------------------------------------------------------------------------------
+
+#[derive(Clone, Debug, Serialize, Deserialize)]
+pub struct PatchCase {
+    pub base: ArchiveSpec,
+    /// how many of the base's files the patch archive overrides (other bytes, other length)
+    pub overrides: u8,
+    /// a second patch overrides the first overridden file once more
+    pub second: bool,
+    /// None = everything the chain lists; Some = selectors (≥ 60000: a name in no archive)
+    pub names: Option<Vec<u16>>,
+    pub preserve: bool,
+    pub skip_errors: bool,
+    /// stale files at the targets: 0 none, 1 same length, 2 longer, 3 shorter
+    pub prefill: u8,
+    pub order: u16,
+}
+
+fn patch_of(base: &ArchiveSpec, overrides: u8, level: u32) -> ArchiveSpec {
+    let mut p = base.clone();
+    let k = (overrides as usize).min(p.files.len());
+    p.files.truncate(k.max(1).min(p.files.len()));
+    for f in p.files.iter_mut() {
+        f.seed = f.seed.wrapping_add(1000 * level);
+        f.len.delta = f.len.delta.wrapping_add(3 * level as i16);
+    }
+    if let Some(mut f) = p.files.first().cloned() {
+        f.name = format!("patch_only_{level}.dat");
+        p.files.push(f);
+    }
+    p.listfile = true;
+    p
+}
+
+pub fn run_patch(check: &Check, c: &PatchCase) -> Result<(), Fail> {
+    let sb = Sandbox::new();
+    let p1 = patch_of(&c.base, c.overrides, 1);
+    let mut p2 = patch_of(&c.base, 1, 2);
+    p2.version = if c.base.version >= 4 { 1 } else { c.base.version + 1 };
+    if !build_into(&sb, &c.base, "in/base.mpq") || !build_into(&sb, &p1, "in/patch-1.mpq") || (c.second && !build_into(&sb, &p2, "in/patch-2.mpq")) {
+        check.bump("p3:builder-refused", 1);
+        check.count("p3:patch:builder-refused", false);
+        return Ok(());
+    }
+    let s = |x: &str| x.to_string();
+    let mut present: Vec<String> = c.base.files.iter().map(|f| f.name.clone()).collect();
+    present.push("patch_only_1.dat".into());
+    if c.second {
+        present.push("patch_only_2.dat".into());
+    }
+    let mut req: Vec<String> = vec![];
+    let mut n_missing = 0;
+    if let Some(sel) = &c.names {
+        for x in sel {
+            let n = if *x >= 60000 {
+                n_missing += 1;
+                format!("no_such_file_{}.xyz", x % 4)
+            } else {
+                present[pick_idx((*x as u32 * 65536 / 60000) as u16, present.len())].clone()
+            };
+            if !req.contains(&n) {
+                req.push(n);
+            }
+        }
+    }
+    let mut others = vec![sb.path("in/patch-1.mpq").to_string_lossy().to_string()];
+    let mut groups: Vec<Vec<String>> = vec![vec![s("-o"), s("out/x")], vec![s("--patch"), s("in/patch-1.mpq")]];
+    if c.second {
+        // priority follows the order of the --patch options: keep them one group
+        groups[1].extend([s("--patch"), s("in/patch-2.mpq")]);
+        others.push(sb.path("in/patch-2.mpq").to_string_lossy().to_string());
+    }
+    if c.preserve {
+        groups.push(vec![s("--preserve-paths")]);
+    }
+    if c.skip_errors {
+        groups.push(vec![s("--skip-errors")]);
+    }
+    // the file names are trailing positionals: the archive first, the names last, options anywhere before
+    let mut args = arrange(&[s("mpq"), s("extract")], &[s("in/base.mpq")], &groups, c.order);
+    if !req.is_empty() {
+        args.push(s("--"));
+        args.extend(req.iter().cloned());
+    }
+    let lib = ask(Ask::MpqChainRead { others, names: c.names.as_ref().map(|_| req.clone()) }, &sb.path("in/base.mpq"));
+    if let (Verdict::Ok(i), true) = (&lib, c.prefill != 0) {
+        if let Some(m) = i["files"].as_object() {
+            for (name, d) in m {
+                if let Some(len) = d["len"].as_u64() {
+                    let stale_len = match c.prefill {
+                        1 => len as usize,
+                        2 => len as usize + 3,
+                        _ => len as usize / 2,
+                    };
+                    if c.prefill == 1 && len == 0 {
+                        continue;
+                    }
+                    sb.write(&crate::part2::extract_target("out/x", name, c.preserve), &stale_bytes(None, 2)[..1].repeat(stale_len));
+                }
+            }
+        }
+    }
+    let run = sb.run(&args);
+    let exit0 = run.ok();
+    let class = format!(
+        "p3:patch:{}:ov{}:second{}:{}:missing{}:pp{}:skip{}:stale{}:ord{}:lib-{}:exit{}",
+        spec_class(&c.base),
+        c.overrides.min(3),
+        c.second as u8,
+        if c.names.is_some() { "named" } else { "all" },
+        n_missing.min(2),
+        c.preserve as u8,
+        c.skip_errors as u8,
+        c.prefill,
+        (c.order != 0) as u8,
+        lib_tag(&lib),
+        if exit0 { "0" } else { "nz" }
+    );
+    check.count(&class, matches!(lib, Verdict::Ok(_)));
+    check.sample(&format!("p3:patch:{}:second{}", if c.names.is_some() { "named" } else { "all" }, c.second as u8), || json!({"part": "patch", "case": c, "exit0": exit0}));
+    let ctx = || format!("`{}` (base {}) → {}", cmdline(&args), c.base.summary(), show(&run));
+    let mut fails = vec![];
+    let info = match &lib {
+        Verdict::Ok(i) => i.clone(),
+        Verdict::Rejects(e) => {
+            if exit0 {
+                fails.push(Fail::new("exit0-on-rejected-input:mpq:extract", format!("{} — the library's PatchChain: {}", ctx(), vcheck::engine::truncate(e, 200))));
+            }
+            return crate::settle(check, fails);
+        }
+        Verdict::Crashed(_) => return Ok(()),
+    };
+    let errs = info["read_errors"].as_u64().unwrap_or(0);
+    if errs > 0 && !c.skip_errors {
+        if exit0 {
+            let sig = if errs == n_missing as u64 { "exit0-on-missing-name:mpq:extract" } else { "exit0-on-failed-extraction:mpq:extract" };
+            fails.push(Fail::new(sig, format!("{} — PatchChain::read_file fails for {errs} requested name(s) and --skip-errors was not given", ctx())));
+        }
+        return crate::settle(check, fails);
+    }
+    if errs == 0 && !exit0 {
+        check.bump("p3:cli-refuses-what-library-does:mpq:extract-patch", 1);
+        return Ok(());
+    }
+    check.bump("p3:judged:mpq:extract-patch", 1);
+    match crate::part2::check_extracted(&sb, &info["files"], "out/x", c.preserve, None) {
+        Ok(n) => check.bump("p3:patch:files-compared", n as u64),
+        Err(m) => fails.push(Fail::new("patch-chain-extraction-differs-from-library:mpq:extract", format!("{} — {m} (PatchChain::read_file is the reference)", ctx()))),
+    }
+    crate::settle(check, fails)
+}
+
+fn chain_read(path: &Path, others: &[String], names: Option<&[String]>) -> Result<Value, String> {
+    let mut c = wow_mpq::PatchChain::new();
+    c.add_archive(path, 0).map_err(es)?;
+    for (i, o) in others.iter().enumerate() {
+        // "Patch archives to apply (in order of priority)"
+        c.add_archive(Path::new(o), ((i + 1) * 100) as i32).map_err(es)?;
+    }
+    let names: Vec<String> = match names {
+        Some(n) => n.to_vec(),
+        None => c.list().map_err(es)?.into_iter().map(|e| e.name).collect(),
+    };
+    let mut m = serde_json::Map::new();
+    let mut errs = 0;
+    for n in &names {
+        match c.read_file(n) {
+            Ok(d) => {
+                m.insert(n.clone(), json!({"len": d.len(), "h": format!("{:016x}", fnv(&d))}));
+            }
+            Err(e) => {
+                errs += 1;
+                m.insert(n.clone(), json!({"err": e.to_string()}));
+            }
+        }
+    }
+    Ok(json!({"files": Value::Object(m), "read_errors": errs, "names": names}))
+}
+
+// ------------------------------------------------------------------------------------------
+
+#[derive(Clone, Debug, Serialize, Deserialize)]
+pub struct FileTypeCase {
+    pub spec: ArchiveSpec,
+    pub file_type: String,
+    pub preserve: bool,
+    pub order: u16,
+}
+
+pub fn run_filetype(check: &Check, c: &FileTypeCase) -> Result<(), Fail> {
+    let sb = Sandbox::new();
+    if !build_into(&sb, &c.spec, "in/a.mpq") {
+        check.bump("p3:builder-refused", 1);
+        check.count("p3:filetype:builder-refused", false);
+        return Ok(());
+    }
+    let s = |x: &str| x.to_string();
+    let mut groups: Vec<Vec<String>> = vec![vec![s("-o"), s("out/x")], vec![s("-f"), c.file_type.clone()]];
+    if c.preserve {
+        groups.push(vec![s("-p")]);
+    }
+    let args = arrange(&[s("mpq"), s("extract")], &[s("in/a.mpq")], &groups, c.order);
+    let lib = oracle::ask(&Entry::MpqReadAll, &sb.path("in/a.mpq"));
+    let run = sb.run(&args);
+    let exit0 = run.ok();
+    let Verdict::Ok(info) = &lib else {
+        check.count("p3:filetype:source-unreadable", false);
+        return Ok(());
+    };
+    // "File types to extract (e.g. ".txt", "jpg"). Case-insensitive."
+    let ty = c.file_type.to_lowercase();
+    let all: Vec<String> = info["names"].as_array().map(|a| a.iter().filter_map(|x| x.as_str().map(|s| s.to_string())).collect()).unwrap_or_default();
+    let want: Vec<String> = all.iter().filter(|n| n.to_lowercase().ends_with(&ty)).cloned().collect();
+    let errs = want.iter().filter(|n| info["files"][n.as_str()].get("err").is_some()).count();
+    let class = format!("p3:filetype:{}:sel{}of{}:pp{}:ord{}:exit{}", spec_class(&c.spec), want.len().min(3), all.len().min(4), c.preserve as u8, (c.order != 0) as u8, if exit0 { "0" } else { "nz" });
+    check.count(&class, !want.is_empty() && want.len() < all.len());
+    check.sample(&format!("p3:filetype:sel{}", want.len().min(2)), || json!({"part": "filetype", "case": c, "exit0": exit0}));
+    let ctx = || format!("`{}` on {} → {}", cmdline(&args), c.spec.summary(), show(&run));
+    let mut fails = vec![];
+    if errs > 0 {
+        if exit0 {
+            fails.push(Fail::new("exit0-on-failed-extraction:mpq:extract", format!("{} — the library cannot read {errs} of the selected files", ctx())));
+        }
+        return crate::settle(check, fails);
+    }
+    if !exit0 {
+        check.bump("p3:cli-refuses-what-library-does:mpq:extract-type", 1);
+        return Ok(());
+    }
+    check.bump("p3:judged:mpq:extract-type", 1);
+    if let Err(m) = crate::part2::check_extracted(&sb, &info["files"], "out/x", c.preserve, Some(&want)) {
+        fails.push(Fail::new("file-type-extraction-incomplete:mpq:extract", format!("{} — {m}; -f {:?} selects {:?}", ctx(), c.file_type, want)));
+    }
+    let want_targets: BTreeSet<String> = want.iter().map(|n| crate::part2::extract_target("out/x", n, c.preserve)).collect();
+    for n in &all {
+        let t = crate::part2::extract_target("out/x", n, c.preserve);
+        if !want.contains(n) && !want_targets.contains(&t) && sb.exists(&t) {
+            fails.push(Fail::new("file-type-filter-ignored:mpq:extract", format!("{} — {n:?} does not end with {:?} but was extracted to {t}", ctx(), c.file_type)));
+            break;
+        }
+    }
+    crate::settle(check, fails)
+}
+
+// ------------------------------------------------------------------------------------------
+// wdt tiles
+
+#[derive(Clone, Debug, Serialize, Deserialize)]
+pub struct TilesCase {
+    pub base: String,
+    pub version: String,
+    /// 0 text, 1 csv, 2 json
+    pub format: u8,
+    pub verbosity: u8,
+    pub order: u16,
+}
+
+fn wdt_tiles_lib(path: &Path, version: &str) -> Result<Value, String> {
+    let v = wow_wdt::version::WowVersion::from_expansion_name(version).map_err(es)?;
+    let mut rd = wow_wdt::WdtReader::new(std::io::BufReader::new(std::fs::File::open(path).map_err(es)?), v);
+    let w = rd.read().map_err(es)?;
+    let mut tiles = vec![];
+    for y in 0..64usize {
+        for x in 0..64usize {
+            if let Some(t) = w.get_tile(x, y) {
+                if t.has_adt {
+                    tiles.push(json!([x, y, t.area_id]));
+                }
+            }
+        }
+    }
+    Ok(json!({"tiles": tiles, "count": w.count_existing_tiles()}))
+}
+
+pub fn run_tiles(check: &Check, c: &TilesCase) -> Result<(), Fail> {
+    let sb = Sandbox::new();
+    let base = fixtures::base(&c.base).map_err(|e| Fail::new("harness:fixture-failed", format!("{}: {e}", c.base)))?;
+    sb.write("in/map.wdt", &base);
+    let s = |x: &str| x.to_string();
+    let fmt = ["text", "csv", "json"][c.format as usize % 3];
+    let mut groups: Vec<Vec<String>> = vec![vec![s("--version"), c.version.clone()]];
+    if fmt != "text" || c.order % 2 == 1 {
+        groups.push(vec![s("-f"), s(fmt)]);
+    }
+    let quiet = c.verbosity % 4 == 2;
+    groups.extend(verbosity_group(c.verbosity));
+    let args = arrange(&[s("wdt"), s("tiles")], &[s("in/map.wdt")], &groups, c.order);
+    let lib = ask(Ask::WdtTiles { version: c.version.clone() }, &sb.path("in/map.wdt"));
+    let run = sb.run(&args);
+    let exit0 = run.ok();
+    let class = format!("p3:tiles:{}:{}:{fmt}:v{}:ord{}:lib-{}:exit{}", c.base.split(':').next().unwrap_or(""), c.version.to_lowercase(), c.verbosity % 4, (c.order != 0) as u8, lib_tag(&lib), if exit0 { "0" } else { "nz" });
+    check.count(&class, exit0 && matches!(lib, Verdict::Ok(_)));
+    check.sample(&format!("p3:tiles:{fmt}"), || json!({"part": "tiles", "case": c, "exit0": exit0}));
+    let ctx = || format!("`{}` on {} → {}", cmdline(&args), c.base, show(&run));
+    let mut fails = vec![];
+    let info = match (&lib, exit0) {
+        (Verdict::Ok(i), true) => i.clone(),
+        (Verdict::Rejects(e), true) => {
+            fails.push(Fail::new("exit0-on-rejected-input:wdt:tiles", format!("{} — WdtReader::read returns Err({})", ctx(), vcheck::engine::truncate(e, 200))));
+            return crate::settle(check, fails);
+        }
+        _ => return Ok(()),
+    };
+    let want: BTreeSet<(u64, u64, u64)> = info["tiles"].as_array().map(|a| a.iter().map(|t| (t[0].as_u64().unwrap_or(0), t[1].as_u64().unwrap_or(0), t[2].as_u64().unwrap_or(0))).collect()).unwrap_or_default();
+    if quiet && run.stdout.trim().is_empty() {
+        return Ok(());
+    }
+    check.bump("p3:judged:wdt:tiles", 1);
+    let out = &run.stdout;
+    let got: Result<BTreeSet<(u64, u64, u64)>, String> = match fmt {
+        "csv" => read_csv(out).and_then(|rows| {
+            if rows.first().map(|r| r.join(",")) != Some("x,y,area_id".to_string()) {
+                return Err(format!("header row {:?}", rows.first()));
+            }
+            rows[1..].iter().map(|r| if r.len() == 3 { Ok((r[0].parse().map_err(es)?, r[1].parse().map_err(es)?, r[2].parse().map_err(es)?)) } else { Err(format!("row {r:?}")) }).collect()
+        }),
+        "json" => serde_json::from_str::<Value>(out).map_err(es).and_then(|v| {
+            v.as_array().ok_or("not an array".to_string())?.iter().map(|t| Ok((t["x"].as_u64().ok_or("x")?, t["y"].as_u64().ok_or("y")?, t["area_id"].as_u64().ok_or("area_id")?))).collect()
+        }),
+        _ => {
+            let mut set = BTreeSet::new();
+            for l in out.lines() {
+                // "  [ x, y] - Area ID: a"
+                if let Some((pos, area)) = l.trim().strip_prefix('[').and_then(|r| r.split_once("] - Area ID:")) {
+                    if let Some((x, y)) = pos.split_once(',') {
+                        if let (Ok(x), Ok(y), Ok(a)) = (x.trim().parse(), y.trim().parse(), area.trim().parse()) {
+                            set.insert((x, y, a));
+                        }
+                    }
+                }
+            }
+            if let Some(n) = labelled_u64(out, "Total:") {
+                if n != want.len() as u64 {
+                    fails.push(Fail::new("tiles-count-differs-from-library:wdt:tiles", format!("{} — 'Total: {n} tiles', the library finds {}", ctx(), want.len())));
+                }
+            }
+            Ok(set)
+        }
+    };
+    match got {
+        Err(e) => fails.push(Fail::new("exit0-with-unparseable-output:wdt:tiles", format!("{} — the {fmt} output does not parse: {e}", ctx()))),
+        Ok(g) if g != want => {
+            let missing: Vec<_> = want.difference(&g).take(3).collect();
+            let extra: Vec<_> = g.difference(&want).take(3).collect();
+            fails.push(Fail::new("tiles-differ-from-library:wdt:tiles", format!("{} — {} tiles printed, WdtFile::get_tile has {} with ADT data; not printed {:?}, only printed {:?}", ctx(), g.len(), want.len(), missing, extra)));
+        }
+        Ok(_) => {}
+    }
+    crate::settle(check, fails)
+}
+
+// ------------------------------------------------------------------------------------------
+// mpq grids and strategies
+
+fn grid_specs() -> Vec<ArchiveSpec> {
+    ["v1", "v2", "v3", "v4"].iter().filter_map(|id| fixtures::mpq_spec(id)).collect()
+}
+
+fn spec_strategy() -> impl proptest::strategy::Strategy<Value = ArchiveSpec> + use<> {
+    use proptest::prelude::*;
+    crate::part1::lib_strategy().prop_map(|c| c.spec)
+}
+
+pub fn rebuild_grid(thorough: bool) -> Vec<RebuildCase> {
+    let d = RebuildOpts { upgrade_to: None, preserve_format: false, skip_encrypted: false, skip_signatures: false, verify: false, compression: None, block_size: None, list_only: false };
+    let mut sets = vec![
+        d.clone(),
+        RebuildOpts { preserve_format: true, ..d.clone() },
+        RebuildOpts { skip_encrypted: true, verify: true, ..d.clone() },
+        RebuildOpts { skip_signatures: true, compression: Some(2), ..d.clone() },
+        RebuildOpts { block_size: Some(5), compression: Some(0), ..d.clone() },
+        RebuildOpts { list_only: true, ..d.clone() },
+        RebuildOpts { preserve_format: true, skip_encrypted: true, skip_signatures: true, verify: true, compression: Some(1), block_size: Some(2), ..d.clone() },
+    ];
+    for v in 1..=4u8 {
+        sets.push(RebuildOpts { upgrade_to: Some(v), verify: v % 2 == 0, compression: if v == 3 { Some(3) } else { None }, ..d.clone() });
+    }
+    let mut out = vec![];
+    let mut k = 0usize;
+    for (i, spec) in grid_specs().into_iter().enumerate() {
+        for (j, o) in sets.iter().enumerate() {
+            k += 1;
+            if thorough || (i + j) % 2 == 0 {
+                out.push(RebuildCase { spec: spec.clone(), opts: o.clone(), prefill: (k % 3) as u8, order: if k % 2 == 0 { k as u16 } else { 0 } });
+            }
+        }
+    }
+    out
+}
+
+pub fn rebuild_strategy() -> impl proptest::strategy::Strategy<Value = RebuildCase> + use<> {
+    use proptest::prelude::*;
+    let opts = (proptest::option::weighted(0.4, 1u8..=4), any::<bool>(), any::<bool>(), any::<bool>(), any::<bool>(), proptest::option::weighted(0.4, 0u8..4), proptest::option::weighted(0.3, 0u8..7), prop_oneof![6 => Just(false), 1 => Just(true)])
+        .prop_map(|(upgrade_to, preserve_format, skip_encrypted, skip_signatures, verify, compression, block_size, list_only)| RebuildOpts { upgrade_to, preserve_format, skip_encrypted, skip_signatures, verify, compression, block_size, list_only });
+    (spec_strategy(), opts, 0u8..3, prop_oneof![1 => Just(0u16), 1 => any::<u16>()]).prop_map(|(spec, opts, prefill, order)| RebuildCase { spec, opts, prefill, order })
+}
+
+pub fn compare_grid(thorough: bool) -> Vec<CompareCase> {
+    let mut out = vec![];
+    let mut k = 0usize;
+    for (i, spec) in grid_specs().into_iter().enumerate() {
+        for variant in 0..6u8 {
+            for output in 0..3u8 {
+                k += 1;
+                if thorough || (i + variant as usize + output as usize) % 2 == 0 {
+                    out.push(CompareCase {
+                        spec: spec.clone(),
+                        variant,
+                        which: (k * 9973 % 65536) as u16,
+                        detailed: k % 2 == 0,
+                        content_check: k % 3 != 0,
+                        metadata_only: k % 7 == 0,
+                        ignore_order: k % 5 == 0,
+                        output,
+                        filter: if k % 4 == 0 { Some(["*.txt", "Data*", "*blob*"][k % 3].to_string()) } else { None },
+                        order: if k % 2 == 1 { k as u16 } else { 0 },
+                    });
+                }
+            }
+        }
+    }
+    out
+}
+
+pub fn compare_strategy() -> impl proptest::strategy::Strategy<Value = CompareCase> + use<> {
+    use proptest::prelude::*;
+    (spec_strategy(), 0u8..6, any::<u16>(), proptest::collection::vec(any::<bool>(), 4), 0u8..3, proptest::option::weighted(0.25, prop_oneof![Just("*.txt".to_string()), Just("*a*".to_string()), Just("*".to_string())]), prop_oneof![1 => Just(0u16), 1 => any::<u16>()]).prop_map(
+        |(spec, variant, which, b, output, filter, order)| CompareCase { spec, variant, which, detailed: b[0], content_check: b[1], metadata_only: b[2] && b[3], ignore_order: b[3], output, filter, order },
+    )
+}
+
+pub fn validate_grid(thorough: bool) -> Vec<ValidateCase> {
+    let mut out = vec![];
+    let mut k = 0usize;
+    for spec in grid_specs() {
+        for corrupt in [None, Some((0u16, 30000u16)), Some((30000, 100)), Some((50000, 60000)), Some((65535, 20000))] {
+            for verbosity in 0..4u8 {
+                k += 1;
+                if thorough || corrupt.is_none() || verbosity as usize % 2 == (k / 4) % 2 {
+                    out.push(ValidateCase { spec: spec.clone(), corrupt, check_checksums: k % 2 == 0, threads: if k % 3 == 0 { Some(2) } else { None }, verbosity, order: if k % 2 == 1 { k as u16 } else { 0 } });
+                }
+            }
+        }
+    }
+    out
+}
+
+pub fn validate_strategy() -> impl proptest::strategy::Strategy<Value = ValidateCase> + use<> {
+    use proptest::prelude::*;
+    (spec_strategy(), proptest::option::weighted(0.7, (any::<u16>(), any::<u16>())), any::<bool>(), proptest::option::weighted(0.3, 1u8..5), 0u8..4, prop_oneof![1 => Just(0u16), 1 => any::<u16>()])
+        .prop_map(|(spec, corrupt, check_checksums, threads, verbosity, order)| ValidateCase { spec, corrupt, check_checksums, threads, verbosity, order })
+}
+
+pub fn tables_grid() -> Vec<TablesCase> {
+    let mut out = vec![];
+    let mut k = 0usize;
+    let mut specs = grid_specs();
+    specs.extend(fixtures::mpq_spec("v1-nolist"));
+    for spec in specs {
+        for (hash, block) in [(false, false), (true, false), (false, true), (true, true)] {
+            k += 1;
+            out.push(TablesCase { spec: spec.clone(), hash, block, verbosity: (k % 4) as u8, order: if k % 2 == 0 { k as u16 } else { 0 } });
+        }
+    }
+    out
+}
+
+pub fn tables_strategy() -> impl proptest::strategy::Strategy<Value = TablesCase> + use<> {
+    use proptest::prelude::*;
+    (spec_strategy(), any::<bool>(), any::<bool>(), 0u8..4, any::<u16>()).prop_map(|(spec, hash, block, verbosity, order)| TablesCase { spec, hash, block, verbosity, order })
+}
+
+pub fn patch_grid(thorough: bool) -> Vec<PatchCase> {
+    let mut out = vec![];
+    let mut k = 0usize;
+    for spec in grid_specs() {
+        for overrides in [0u8, 1, 3] {
+            for (names, skip_errors) in [(None, false), (Some(vec![0u16, 20000, 59999]), false), (Some(vec![10000, 65000]), false), (Some(vec![65001, 40000, 59999]), true)] {
+                k += 1;
+                if thorough || k % 2 == 0 {
+                    out.push(PatchCase { base: spec.clone(), overrides, second: k % 3 == 0, names, preserve: k % 2 == 0, skip_errors, prefill: (k % 4) as u8, order: if k % 3 == 1 { k as u16 } else { 0 } });
+                }
+            }
+        }
+    }
+    out
+}
+
+pub fn patch_strategy() -> impl proptest::strategy::Strategy<Value = PatchCase> + use<> {
+    use proptest::prelude::*;
+    (spec_strategy(), 0u8..4, any::<bool>(), proptest::option::weighted(0.6, proptest::collection::vec(prop_oneof![5 => 0u16..60000, 1 => 60000u16..=65535], 1..5)), any::<bool>(), any::<bool>(), 0u8..4, prop_oneof![1 => Just(0u16), 1 => any::<u16>()])
+        .prop_map(|(base, overrides, second, names, preserve, skip_errors, prefill, order)| PatchCase { base, overrides, second, names, preserve, skip_errors, prefill, order })
+}
+
+const FILE_TYPES: [&str; 8] = [".txt", "TXT", "bin", ".dbc", ".BLP", "nomatch", "t", ".dat"];
+
+pub fn filetype_grid(thorough: bool) -> Vec<FileTypeCase> {
+    let mut out = vec![];
+    let mut k = 0usize;
+    for spec in grid_specs() {
+        for t in FILE_TYPES {
+            k += 1;
+            if thorough || k % 2 == 0 {
+                out.push(FileTypeCase { spec: spec.clone(), file_type: t.to_string(), preserve: k % 3 == 0, order: if k % 4 == 0 { k as u16 } else { 0 } });
+            }
+        }
+    }
+    out
+}
+
+pub fn filetype_strategy() -> impl proptest::strategy::Strategy<Value = FileTypeCase> + use<> {
+    use proptest::prelude::*;
+    (spec_strategy(), any::<u16>(), any::<u16>(), any::<bool>(), any::<u16>()).prop_map(|(spec, fi, cut, preserve, order)| {
+        // a suffix of one of the archive's own names (or of a fixed list), in upper or lower case
+        let file_type = if spec.files.is_empty() || cut % 5 == 0 {
+            FILE_TYPES[pick_idx(fi, FILE_TYPES.len())].to_string()
+        } else {
+            let n: Vec<char> = spec.files[pick_idx(fi, spec.files.len())].name.chars().collect();
+            let k = 1 + pick_idx(cut, n.len().min(6));
+            let t: String = n[n.len() - k.min(n.len())..].iter().collect();
+            if cut % 2 == 0 { t.to_uppercase() } else { t }
+        };
+        FileTypeCase { spec, file_type, preserve, order }
+    })
+}
+
+pub fn tiles_grid(thorough: bool) -> Vec<TilesCase> {
+    let mut out = vec![];
+    let mut k = 0usize;
+    for (b, own) in WDT_BASES {
+        for format in 0..3u8 {
+            for version in [own, "WotLK", "1.12.1"] {
+                k += 1;
+                if thorough || k % 2 == 0 {
+                    out.push(TilesCase { base: b.to_string(), version: version.to_string(), format, verbosity: (k % 4) as u8, order: if k % 3 == 0 { k as u16 } else { 0 } });
+                }
+            }
+        }
+    }
+    out
+}
+
+// ==========================================================================================
+// flags: display flags never change the verdict; the order of flags never changes anything
+
+pub struct FlagCmd {
+    /// family:sub
+    pub key: &'static str,
+    pub input: &'static str,
+    /// valid inputs plus inputs the command is known to find fault with
+    pub bases: &'static [&'static str],
+    pub aux: &'static [(&'static str, &'static str)],
+    pub extra_pos: &'static [&'static str],
+    /// option groups that are always given
+    pub fixed: &'static [&'static [&'static str]],
+    /// boolean flags that only change what is shown ("Show ...", "Verbosity", "Suppress all output",
+    /// "Disable colored output", "Compact ..." in --help)
+    pub display: &'static [&'static str],
+    /// boolean flags that change what is done; used for order permutations only
+    pub other: &'static [&'static str],
+}
+
+const F_MPQS: &[&str] = &["mpq:v1", "mpq:v2", "mpq:v3", "mpq:v4", "mpq:v1-nolist"];
+const F_M2S: &[&str] = &["m2:vanilla", "m2:tbc", "m2:wotlk", "m2:cata", "m2:no-vertices"];
+const F_BLPS: &[&str] = &["blp:test_simple_without_alpha.blp", "blp:test_rect_with_alpha.blp", "blp:test_simple_jpg.blp", "blp:raw3", "blp:dxt1:6x6", "blp:dxt1:2x2", "blp:dxt5:12x20:mips", "blp:dxt3:5x8", "blp:dxt1:24x12"];
+const F_WMOS: &[&str] = &["wmo:root-wotlk", "wmo:root-mop", "wmo:root-classic", "wmo:group"];
+const F_ADTS: &[&str] = &["adt:vanilla-early", "adt:vanilla-late", "adt:wotlk"];
+const F_WDTS: &[&str] = &["wdt:terrain-wotlk", "wdt:wmo-wotlk", "wdt:terrain-cata"];
+const F_WDLS: &[&str] = &["wdl:wotlk", "wdl:vanilla", "wdl:legion"];
+const F_DBCS: &[&str] = &["dbc:five", "dbc:one", "dbc:empty"];
+const VQ: [&str; 2] = ["-v", "-q"];
+
+pub fn flag_cmds() -> Vec<FlagCmd> {
+    let schema: &'static [(&'static str, &'static str)] = &[("in/schema.yaml", "yaml:dbc-schema")];
+    let c = |key, input, bases, display: &'static [&'static str], other: &'static [&'static str]| FlagCmd { key, input, bases, aux: &[], extra_pos: &[], fixed: &[], display, other };
+    vec![
+        c("mpq:info", "in/a.mpq", F_MPQS, &["--show-hash-table", "--show-block-table", "-v", "-q"], &[]),
+        FlagCmd { fixed: &[&["--threads", "2"]], ..c("mpq:validate", "in/a.mpq", F_MPQS, &VQ, &["--check-checksums"]) },
+        c("mpq:list", "in/a.mpq", F_MPQS, &VQ, &["-l", "--show-patches"]),
+        c("mpq:tree", "in/a.mpq", F_MPQS, &["--no-color", "--compact", "--no-external-refs", "-v", "-q"], &[]),
+        c("mpq:patch-chain", "in/a.mpq", F_MPQS, &VQ, &["-d"]),
+        FlagCmd { aux: &[("in/b.mpq", "mpq:v2")], extra_pos: &["in/b.mpq"], ..c("mpq:compare", "in/a.mpq", F_MPQS, &VQ, &["--detailed", "--content-check", "--metadata-only", "--ignore-order"]) },
+        c("dbc:info", "in/Test.dbc", F_DBCS, &VQ, &[]),
+        FlagCmd { aux: schema, fixed: &[&["-s", "in/schema.yaml"]], ..c("dbc:analyze", "in/Test.dbc", F_DBCS, &VQ, &["--cache-strings", "--sorted-keys"]) },
+        FlagCmd { fixed: &[&["-m", "0"]], ..c("dbc:discover", "in/Test.dbc", F_DBCS, &VQ, &["--validate-strings", "--detect-arrays", "--detect-key"]) },
+        FlagCmd { aux: schema, fixed: &[&["-s", "in/schema.yaml"]], ..c("dbc:validate", "in/Test.dbc", F_DBCS, &VQ, &[]) },
+        c("blp:info", "in/tex.blp", F_BLPS, &["--mipmaps", "--raw", "--compression", "--size", "--all", "-v", "-q"], &[]),
+        c("blp:validate", "in/tex.blp", F_BLPS, &VQ, &["--strict"]),
+        c("m2:info", "in/model.m2", F_M2S, &["-d", "-v", "-q"], &[]),
+        c("m2:validate", "in/model.m2", F_M2S, &["-w", "-v", "-q"], &[]),
+        c("m2:tree", "in/model.m2", F_M2S, &["-s", "-r", "-v", "-q"], &[]),
+        c("m2:skin-info", "in/model00.skin", &["skin:old", "skin:new"], &["-d", "-v", "-q"], &[]),
+        c("m2:anim-info", "in/a.anim", &["anim:modern", "anim:legacy"], &["-d", "-v", "-q"], &[]),
+        c("m2:blp-info", "in/tex.blp", F_BLPS, &["-d", "-v", "-q"], &[]),
+        c("wmo:info", "in/obj.wmo", F_WMOS, &["-d", "-v", "-q"], &[]),
+        c("wmo:validate", "in/obj.wmo", F_WMOS, &["-w", "-d", "-v", "-q"], &[]),
+        c("wmo:tree", "in/obj.wmo", F_WMOS, &["--show-refs", "--no-color", "--no-metadata", "--compact", "--detailed", "-v", "-q"], &[]),
+        c("adt:info", "in/tile.adt", F_ADTS, &["-d", "-v", "-q"], &[]),
+        FlagCmd { fixed: &[&["-l", "strict"]], ..c("adt:validate", "in/tile.adt", F_ADTS, &["-w", "-v", "-q"], &[]) },
+        c("adt:tree", "in/tile.adt", F_ADTS, &["--show-refs", "--no-color", "--no-metadata", "--compact", "-v", "-q"], &[]),
+        c("wdt:info", "in/map.wdt", F_WDTS, &["-d", "-v", "-q"], &[]),
+        c("wdt:validate", "in/map.wdt", F_WDTS, &["-w", "-v", "-q"], &[]),
+        c("wdt:tree", "in/map.wdt", F_WDTS, &["--no-external-refs", "--no-color", "--compact", "-v", "-q"], &[]),
+        c("wdl:info", "in/map.wdl", F_WDLS, &VQ, &[]),
+        c("wdl:validate", "in/map.wdl", F_WDLS, &VQ, &[]),
+        c("wdl:tree", "in/map.wdl", F_WDLS, &["--no-external-refs", "--no-color", "--compact", "-v", "-q"], &[]),
+    ]
+}
+
+#[derive(Clone, Debug, Serialize, Deserialize)]
+pub struct FlagsCase {
+    pub cmd: String,
+    pub base: String,
+    pub damage: Damage,
+    pub display: Vec<String>,
+    pub other: Vec<String>,
+    pub order_a: u16,
+    pub order_b: u16,
+}
+
+/// What a run printed, as a sorted bag of tokens: line order, tree drawing, the order of inline
+/// `[key:value, key:value]` lists (hash-map order in the tool) and durations are not content.
+fn untimed(s: &str) -> Vec<String> {
+    let is_duration = |t: &str| {
+        let digits = t.trim_end_matches(|c: char| c.is_alphabetic() || c == 'µ');
+        let unit = &t[digits.len()..];
+        !digits.is_empty() && digits.chars().all(|c| c.is_ascii_digit() || c == '.') && matches!(unit, "ns" | "µs" | "us" | "ms" | "s")
+    };
+    let mut v: Vec<String> = s.split(|c: char| c.is_whitespace() || "[],│├└─".contains(c)).filter(|t| !t.is_empty() && !is_duration(t)).map(|t| t.to_string()).collect();
+    v.sort();
+    v
+}
+
+pub fn run_flags(check: &Check, c: &FlagsCase) -> Result<(), Fail> {
+    let cmds = flag_cmds();
+    let Some(fc) = cmds.iter().find(|f| f.key == c.cmd) else {
+        return Err(Fail::new("harness:unknown-flag-command", c.cmd.clone()));
+    };
+    let sb = Sandbox::new();
+    for (p, id) in fc.aux {
+        let b = fixtures::base(id).map_err(|e| Fail::new("harness:fixture-failed", format!("{id}: {e}")))?;
+        sb.write(p, &b);
+    }
+    let base = fixtures::base(&c.base).map_err(|e| Fail::new("harness:fixture-failed", format!("{}: {e}", c.base)))?;
+    if let Some(b) = c.damage.apply(&base) {
+        sb.write(fc.input, &b);
+    }
+    let s = |x: &str| x.to_string();
+    let (fam, sub) = fc.key.split_once(':').unwrap();
+    let words = [s(fam), s(sub)];
+    let mut pos = vec![s(fc.input)];
+    pos.extend(fc.extra_pos.iter().map(|x| s(x)));
+    let display: Vec<String> = c.display.iter().filter(|f| fc.display.contains(&f.as_str())).cloned().collect();
+    let other: Vec<String> = c.other.iter().filter(|f| fc.other.contains(&f.as_str())).cloned().collect();
+    let mut g0: Vec<Vec<String>> = fc.fixed.iter().map(|g| g.iter().map(|x| s(x)).collect()).collect();
+    g0.extend(other.iter().map(|f| vec![f.clone()]));
+    let mut g1 = g0.clone();
+    g1.extend(display.iter().map(|f| vec![f.clone()]));
+    let a0 = arrange(&words, &pos, &g0, 0);
+    let aa = arrange(&words, &pos, &g1, c.order_a);
+    let ab = arrange(&words, &pos, &g1, if c.order_b == c.order_a { c.order_a.wrapping_add(1) } else { c.order_b });
+    let r0 = sb.run(&a0);
+    let ra = sb.run(&aa);
+    let rb = sb.run(&ab);
+    let st = |r: &RunOut| if r.ok() { "0" } else { "nz" };
+    let class = format!("p3:flags:{}:{}:{}:d{}:o{}:plain-{}:flags-{}", fc.key, c.base.split(':').take(2).collect::<Vec<_>>().join(":"), c.damage.kind(), display.len().min(3), other.len().min(3), st(&r0), st(&ra));
+    let nontrivial = (!r0.ok() && !display.is_empty()) || display.len() + other.len() >= 2;
+    check.count(&class, nontrivial);
+    check.sample(&format!("p3:flags:{}:{}", fc.key, st(&r0)), || json!({"part": "flags", "case": c, "plain": st(&r0), "with_flags": st(&ra)}));
+    if !r0.ok() && !display.is_empty() {
+        check.bump("p3:flags:display-flags-on-failing-input", 1);
+        check.bump(&format!("p3:flags:failing:{}", fc.key), 1);
+    }
+    if display.len() + other.len() >= 2 {
+        check.bump("p3:flags:order-permutations", 1);
+    }
+    let mut fails = vec![];
+    if ra.ok() != rb.ok() {
+        fails.push(Fail::new(format!("exit-status-depends-on-flag-order:{}", fc.key), format!("`{}` → {}; `{}` → {} (input {}, {})", cmdline(&aa), show(&ra), cmdline(&ab), show(&rb), c.base, c.damage.kind())));
+    } else if untimed(&ra.stdout) != untimed(&rb.stdout) {
+        // is the output a function of the command line at all? each arrangement twice more
+        let (ra2, ra3, rb2, rb3) = (sb.run(&aa), sb.run(&aa), sb.run(&ab), sb.run(&ab));
+        let (x, y) = (untimed(&ra.stdout), untimed(&rb.stdout));
+        if untimed(&ra2.stdout) == x && untimed(&ra3.stdout) == x && untimed(&rb2.stdout) == y && untimed(&rb3.stdout) == y {
+            let only_a: Vec<&String> = x.iter().filter(|t| y.binary_search(t).is_err()).take(6).collect();
+            let only_b: Vec<&String> = y.iter().filter(|t| x.binary_search(t).is_err()).take(6).collect();
+            fails.push(Fail::new(
+                format!("output-depends-on-flag-order:{}", fc.key),
+                format!("`{}` and `{}` (input {}, {}) print different content ({} vs {} tokens; only in the first: {:?}; only in the second: {:?})", cmdline(&aa), cmdline(&ab), c.base, c.damage.kind(), x.len(), y.len(), only_a, only_b),
+            ));
+        } else {
+            check.bump(&format!("p3:flags:nondeterministic-stdout:{}", fc.key), 1);
+        }
+    }
+    if !display.is_empty() {
+        if !r0.ok() && ra.ok() {
+            fails.push(Fail::new(
+                format!("exit-status-depends-on-display-flags:{}", fc.key),
+                format!("`{}` → {}, but with display flags only `{}` → {} (input {}, {})", cmdline(&a0), show(&r0), cmdline(&aa), show(&ra), c.base, c.damage.kind()),
+            ));
+        } else if r0.ok() && !ra.ok() {
+            if matches!(c.damage, Damage::None) {
+                fails.push(Fail::new(
+                    format!("exit-status-depends-on-display-flags:{}", fc.key),
+                    format!("`{}` → {} on a valid input, but with display flags only `{}` → {} (input {})", cmdline(&a0), show(&r0), cmdline(&aa), show(&ra), c.base),
+                ));
+            } else {
+                check.bump(&format!("p3:flags:more-output-fails-on-damaged-input:{}", fc.key), 1);
+            }
+        }
+    }
+    crate::settle(check, fails)
+}
+
+/// every command × every base valid and damaged × (each display flag alone, all of them, all of
+/// everything) — the failing inputs are the damaged ones plus the fixtures the validators reject
+pub fn flags_grid(thorough: bool) -> Vec<FlagsCase> {
+    let mut out = vec![];
+    let mut k = 0usize;
+    let damages = [Damage::None, Damage::Truncate { sel: 30000 }, Damage::Garbage { len: 300, seed: 7, keep: 0 }, Damage::Empty, Damage::Missing, Damage::Garbage { len: 300, seed: 9, keep: 8 }];
+    for fc in flag_cmds() {
+        let all_d: Vec<String> = fc.display.iter().map(|x| x.to_string()).collect();
+        let all_o: Vec<String> = fc.other.iter().map(|x| x.to_string()).collect();
+        // -v and -q together are refused by nobody, but "quiet and verbose" has no documented meaning
+        let no_q: Vec<String> = all_d.iter().filter(|x| *x != "-q").cloned().collect();
+        let mut sets: Vec<(Vec<String>, Vec<String>)> = vec![(no_q.clone(), all_o.clone()), (no_q.clone(), vec![])];
+        for d in &all_d {
+            sets.push((vec![d.clone()], vec![]));
+        }
+        if !all_o.is_empty() {
+            sets.push((vec![], all_o.clone()));
+            sets.push((vec!["-q".into()], all_o.clone()));
+        }
+        for (bi, b) in fc.bases.iter().enumerate() {
+            for (di, dmg) in damages.iter().enumerate() {
+                for (si, (d, o)) in sets.iter().enumerate() {
+                    k += 1;
+                    if thorough || (bi + di + si) % 6 == k % 6 && (di < 2 || (bi + si) % 3 == 0) {
+                        out.push(FlagsCase { cmd: fc.key.to_string(), base: b.to_string(), damage: dmg.clone(), display: d.clone(), other: o.clone(), order_a: (k % 97) as u16 + 1, order_b: (k % 89) as u16 + 100 });
+                    }
+                }
+            }
+        }
+    }
+    out
+}
+
+pub fn flags_strategy() -> impl proptest::strategy::Strategy<Value = FlagsCase> + use<> {
+    use proptest::prelude::*;
+    let n = flag_cmds().len();
+    (0..n, any::<u16>(), prop_oneof![2 => Just(Damage::None), 3 => crate::damage::damage_strategy()], any::<u16>(), any::<u16>(), any::<u16>(), any::<u16>()).prop_map(|(ci, bi, damage, dmask, omask, order_a, order_b)| {
+        let cmds = flag_cmds();
+        let fc = &cmds[ci];
+        let mut display: Vec<String> = fc.display.iter().enumerate().filter(|(i, _)| dmask >> i & 1 == 1).map(|(_, x)| x.to_string()).collect();
+        if display.contains(&"-v".to_string()) && display.contains(&"-q".to_string()) {
+            display.retain(|x| x != "-q");
+        }
+        let other: Vec<String> = fc.other.iter().enumerate().filter(|(i, _)| omask >> i & 1 == 1).map(|(_, x)| x.to_string()).collect();
+        FlagsCase { cmd: fc.key.to_string(), base: fc.bases[pick_idx(bi, fc.bases.len())].to_string(), damage, display, other, order_a, order_b }
+    })
+}
+
+// ==========================================================================================
 // driver
 
-pub const PARTS: [&str; 2] = ["conv", "dbc"];
+/// How the content of what each sub-command produces is judged by part 3 (None = not judged, with
+/// the reason). A sub-command that `--help` lists and this table does not know fails the check.
+pub const CONTENT: [(&str, &str, Option<&str>, &str); 50] = [
+    ("mpq", "info", Some("tables"), "format, file count and hash/block table row counts vs get_info"),
+    ("mpq", "validate", Some("validate"), "exit status both ways on intact archives and archives with one corrupted file"),
+    ("mpq", "list", Some("part1"), "set of printed names (and --filter subsets) vs Archive::list (part 1)"),
+    ("mpq", "extract", Some("patch"), "extracted bytes vs Archive::read_file (part 1), PatchChain::read_file (--patch), -f selection"),
+    ("mpq", "create", Some("part1"), "create → extract round trip against the input files (part 1)"),
+    ("mpq", "rebuild", Some("rebuild"), "file set and contents of the target vs the source, format / sector size options, summary counts"),
+    ("mpq", "compare", Some("compare"), "verdict and difference counts vs compare_archives with the same options"),
+    ("mpq", "tree", None, "a drawing; only 'sector_size:' is read (part 1); flag invariance is judged"),
+    ("mpq", "debug", None, "free-form dump of internal tables; no library function states the same facts"),
+    ("mpq", "patch-chain", None, "a visualisation; the chain's content is judged through `mpq extract --patch`"),
+    ("mpq", "db", None, "excluded: manages a per-user database (DESIGN §4 C20)"),
+    ("dbc", "info", Some("dbc"), "header numbers and the raw sample record vs DbcParser"),
+    ("dbc", "validate", None, "a verdict only: its exit status is judged by part 2 (schema fit) and the flags clause"),
+    ("dbc", "list", Some("dbc"), "record count, shown records, every value vs parse_records"),
+    ("dbc", "export", Some("dbc"), "record count, field count, every value of the JSON / CSV export vs parse_records"),
+    ("dbc", "analyze", Some("dbc"), "'Total records' vs parse_records (timings are not content)"),
+    ("dbc", "discover", Some("dbc"), "header numbers vs DbcParser; -o file vs stdout (the guessed types are heuristics, not judged)"),
+    ("dbd", "convert", None, "no in-process oracle: wow-cdbc's 'cli' feature (dbd parser) is not built into the harness"),
+    ("blp", "info", None, "free-form text"),
+    ("blp", "validate", None, "a verdict only: exit status judged by part 2 and the flags clause"),
+    ("blp", "convert", Some("conv"), "BLP→image: decoded pixels vs blp_to_image(level); image→BLP: bytes vs image_to_blp + encode_blp with the same options"),
+    ("m2", "info", None, "free-form text"),
+    ("m2", "validate", None, "a verdict only: exit status judged by part 2 and the flags clause"),
+    ("m2", "convert", Some("conv"), "bytes vs M2Converter::convert + M2Model::write for every version name"),
+    ("m2", "tree", None, "a drawing"),
+    ("m2", "skin-info", None, "free-form text"),
+    ("m2", "skin-convert", Some("conv"), "bytes vs SkinFile::convert + write"),
+    ("m2", "anim-info", None, "free-form text"),
+    ("m2", "anim-convert", Some("conv"), "bytes vs AnimFile::convert + write"),
+    ("m2", "blp-info", None, "free-form text"),
+    ("wmo", "info", None, "free-form text"),
+    ("wmo", "validate", None, "a verdict only"),
+    ("wmo", "convert", Some("conv"), "bytes vs WmoConverter::convert_root + WmoWriter::write_root"),
+    ("wmo", "export", None, "unimplemented on this tree (always exits non-zero; part 2 notices when that changes)"),
+    ("wmo", "list", None, "unimplemented on this tree"),
+    ("wmo", "extract-groups", None, "unimplemented on this tree"),
+    ("wmo", "tree", None, "a drawing"),
+    ("adt", "info", None, "free-form text"),
+    ("adt", "validate", None, "a verdict only"),
+    ("adt", "convert", Some("conv"), "bytes vs BuiltAdt::from_root_adt(root, target) + to_bytes"),
+    ("adt", "tree", None, "a drawing"),
+    ("wdt", "info", None, "free-form text"),
+    ("wdt", "validate", None, "a verdict only"),
+    ("wdt", "convert", Some("conv"), "bytes vs convert_wdt + WdtWriter::write"),
+    ("wdt", "tiles", Some("tiles"), "text / csv / json tile list vs WdtFile::get_tile"),
+    ("wdt", "tree", None, "a drawing"),
+    ("wdl", "info", None, "free-form text"),
+    ("wdl", "validate", None, "a verdict only"),
+    ("wdl", "convert", Some("conv"), "bytes vs convert_wdl_file + WdlParser::write"),
+    ("wdl", "tree", None, "a drawing"),
+];
+
+pub const PARTS: [&str; 10] = ["conv", "dbc", "rebuild", "compare", "validate", "tables", "patch", "filetype", "tiles", "flags"];
 
 pub fn replay(check: &Check, part: &str, case: &Value) -> vcheck::engine::CaseResult {
     match part {
         "conv" => run_conv(check, &serde_json::from_value::<ConvCase>(case.clone()).expect("conv case")),
         "dbc" => run_dbc(check, &serde_json::from_value::<DbcCase>(case.clone()).expect("dbc case")),
+        "rebuild" => run_rebuild(check, &serde_json::from_value::<RebuildCase>(case.clone()).expect("rebuild case")),
+        "compare" => run_compare(check, &serde_json::from_value::<CompareCase>(case.clone()).expect("compare case")),
+        "validate" => run_validate(check, &serde_json::from_value::<ValidateCase>(case.clone()).expect("validate case")),
+        "tables" => run_tables(check, &serde_json::from_value::<TablesCase>(case.clone()).expect("tables case")),
+        "patch" => run_patch(check, &serde_json::from_value::<PatchCase>(case.clone()).expect("patch case")),
+        "filetype" => run_filetype(check, &serde_json::from_value::<FileTypeCase>(case.clone()).expect("filetype case")),
+        "tiles" => run_tiles(check, &serde_json::from_value::<TilesCase>(case.clone()).expect("tiles case")),
+        "flags" => run_flags(check, &serde_json::from_value::<FlagsCase>(case.clone()).expect("flags case")),
         _ => unreachable!(),
     }
 }
@@ -1575,10 +3068,41 @@ pub fn run_all(check: &Check, _tps: &[crate::part2::Template]) {
     use vcheck::engine::pt;
     let thorough = check.tier == vcheck::engine::Tier::Thorough;
     let opts = || pt::Opts { max_shrink_iters: 40, ..pt::Opts::default() };
+    // every sub-command the binary announces has a stated way its content is (or is not) judged
+    if let Ok(map) = crate::help::enumerate() {
+        let mut rows = vec![];
+        for (fam, subs) in &map {
+            for sub in subs {
+                if sub.is_empty() {
+                    // `completions <shell>`: a generated shell script, nothing to compare it with
+                    check.bump(&format!("content-not-judged:{fam}"), 1);
+                    rows.push(json!({"command": fam, "judged": false, "how": "generated shell script"}));
+                    continue;
+                }
+                match CONTENT.iter().find(|(f, s, _, _)| f == fam && s == sub) {
+                    None => crate::inc(check, &format!("sub-command `{fam} {sub}` appears in --help but part 3 does not say how its output content is judged (part3.rs CONTENT)")),
+                    Some((_, _, how, text)) => {
+                        if how.is_none() {
+                            check.bump(&format!("content-not-judged:{fam}:{sub}"), 1);
+                        }
+                        rows.push(json!({"command": format!("{fam} {sub}"), "judged": how.is_some(), "how": text}));
+                    }
+                }
+            }
+        }
+        check.set_extra("part3_content_judgement", json!(rows));
+    }
+    let t0 = std::time::Instant::now();
+    let lap = |what: &str| {
+        if std::env::var("C20_P3_DEBUG").is_ok() {
+            eprintln!("[p3 debug] {what} done at {:.1}s", t0.elapsed().as_secs_f32());
+        }
+    };
     let grid = conv_grid(thorough);
     check.set_extra("part3_conv_grid", json!(grid.len()));
     guarded(check, "conv", &grid, |c| run_conv(check, c));
     pt::run(check, "conv-random", check.tier.pick(96, 6000), opts(), conv_strategy, |c| json!({"part": "conv", "case": c}), |c| run_conv(check, c));
+    lap("conv");
     let grid = dbc_grid(thorough);
     check.set_extra("part3_dbc_grid", json!(grid.len()));
     guarded(check, "dbc", &grid, |c| run_dbc(check, c));
@@ -1586,6 +3110,36 @@ pub fn run_all(check: &Check, _tps: &[crate::part2::Template]) {
     for k in ["dbc:export", "dbc:list", "dbc:info", "dbc:discover", "dbc:analyze"] {
         if check.counter(&format!("p3:judged:{k}")) == 0 {
             crate::inc(check, &format!("part 3: no run of {k} exited 0 with a library result to compare with"));
+        }
+    }
+    lap("dbc");
+    guarded(check, "rebuild", &rebuild_grid(thorough), |c| run_rebuild(check, c));
+    guarded(check, "compare", &compare_grid(thorough), |c| run_compare(check, c));
+    guarded(check, "validate", &validate_grid(thorough), |c| run_validate(check, c));
+    guarded(check, "tables", &tables_grid(), |c| run_tables(check, c));
+    guarded(check, "patch", &patch_grid(thorough), |c| run_patch(check, c));
+    guarded(check, "filetype", &filetype_grid(thorough), |c| run_filetype(check, c));
+    guarded(check, "tiles", &tiles_grid(thorough), |c| run_tiles(check, c));
+    pt::run(check, "rebuild-random", check.tier.pick(16, 1500), opts(), rebuild_strategy, |c| json!({"part": "rebuild", "case": c}), |c| run_rebuild(check, c));
+    pt::run(check, "compare-random", check.tier.pick(16, 1500), opts(), compare_strategy, |c| json!({"part": "compare", "case": c}), |c| run_compare(check, c));
+    pt::run(check, "validate-random", check.tier.pick(16, 1500), opts(), validate_strategy, |c| json!({"part": "validate", "case": c}), |c| run_validate(check, c));
+    pt::run(check, "tables-random", check.tier.pick(16, 800), opts(), tables_strategy, |c| json!({"part": "tables", "case": c}), |c| run_tables(check, c));
+    pt::run(check, "patch-random", check.tier.pick(16, 1500), opts(), patch_strategy, |c| json!({"part": "patch", "case": c}), |c| run_patch(check, c));
+    pt::run(check, "filetype-random", check.tier.pick(16, 800), opts(), filetype_strategy, |c| json!({"part": "filetype", "case": c}), |c| run_filetype(check, c));
+    lap("mpq+tiles");
+    let fg = flags_grid(thorough);
+    check.set_extra("part3_flags_grid", json!(fg.len()));
+    guarded(check, "flags", &fg, |c| run_flags(check, c));
+    pt::run(check, "flags-random", check.tier.pick(48, 4000), opts(), flags_strategy, |c| json!({"part": "flags", "case": c}), |c| run_flags(check, c));
+    lap("flags");
+    for fc in flag_cmds() {
+        if fc.key.ends_with(":validate") && check.counter(&format!("p3:flags:failing:{}", fc.key)) == 0 {
+            crate::inc(check, &format!("part 3: {} was never run with display flags on an input it fails on", fc.key));
+        }
+    }
+    for k in ["p3:flags:display-flags-on-failing-input", "p3:flags:order-permutations", "p3:judged:mpq:rebuild", "p3:rebuild:files-compared", "p3:judged:mpq:compare:identical", "p3:judged:mpq:compare:differing", "p3:validate:intact", "p3:validate:file-unreadable", "p3:tables:rows-compared", "p3:judged:mpq:extract-patch", "p3:patch:files-compared", "p3:judged:mpq:extract-type", "p3:judged:wdt:tiles"] {
+        if check.counter(k) == 0 {
+            crate::inc(check, &format!("part 3: essential class {k} is empty"));
         }
     }
     for k in CONV_KINDS {
